@@ -248,11 +248,16 @@ structure Flags where
                   -- as a whole: a further designator follows the range, or brace elision descends into the element (no C11
                   -- semantics; chibicc parses the initializer once per designated element, so a continuation lands in every
                   -- element, the specification - gcc - stores one initializer in every element and continues after the last)
+  reinit : Bool   -- the flexible array member of the declared object (GNU: static initialization of a flexible array member,
+                  -- no C11 semantics) is initialised AGAIN after an earlier initializer of the same list initialised it: through a
+                  -- designator that names it, or because the cursor comes back to it from the member before it.  gcc (the
+                  -- specification) lets the array grow with every initializer; chibicc fixes its length at the first one
+                  -- (count_array_init_elements on first contact) and drops what lies beyond.
   deriving DecidableEq, Repr, Inhabited
 
-def Flags.none : Flags := ⟨false, false, false⟩
-def Flags.join (a b : Flags) : Flags := ⟨a.over || b.over, a.xover || b.xover, a.wide || b.wide⟩
-def Flags.clean (a : Flags) : Bool := !a.over && !a.xover && !a.wide
+def Flags.none : Flags := ⟨false, false, false, false⟩
+def Flags.join (a b : Flags) : Flags := ⟨a.over || b.over, a.xover || b.xover, a.wide || b.wide, a.reinit || b.reinit⟩
+def Flags.clean (a : Flags) : Bool := !a.over && !a.xover && !a.wide && !a.reinit
 
 structure Result where
   obj : Init
@@ -369,7 +374,7 @@ def initItemWith (rec : Ty → Bool → Init → Option (List Nat) → List ITok
       let t := if growable ty top p0 then (match t with | .array e _ => Ty.inc e | t => t) else t
       let sub ← rec t false (braceStart t) (firstCursor t) inner true Flags.none
       let subObj := defaultMember t (unflex sub.obj)
-      let fl := (fl.join ⟨paths.any (touched obj), paths.any (exprAbove obj), decide (paths.length > 1) && !siblings paths⟩).join sub.fl
+      let fl := (fl.join ⟨paths.any (touched obj), paths.any (exprAbove obj), decide (paths.length > 1) && !siblings paths, false⟩).join sub.fl
       let obj ← paths.foldlM (fun o p => modifyAt ty top (fun _ _ => pure subObj) ty [] p o) obj
       rec ty top obj (next ty top (paths.getLast!.reverse)) sub.rest false fl
     | tok :: r => do
@@ -379,10 +384,25 @@ def initItemWith (rec : Ty → Bool → Init → Option (List Nat) → List ITok
       let fl := fl.join ⟨(isStr && targets.any (fun p =>
             match subTy ty p with | some (.scalar ..) => false | _ => touched obj p))
           || targets.any (switchesUnion obj), targets.any (exprAbove obj),
-          decide (paths.length > 1) && !(siblings paths && targets == paths)⟩
+          decide (paths.length > 1) && !(siblings paths && targets == paths), false⟩
       let obj ← targets.foldlM (fun o p => modifyAt ty top (storeTok ty top tok p) ty [] p o) obj
       rec ty top obj (next ty top (targets.getLast!.reverse)) r false fl
     | [] => .error (.diag "expected an expression")
+
+/-- index of the flexible array member of the declared object (the last member of a struct type with `is_flexible`) -/
+def flexIdx (ty : Ty) (top : Bool) : Option Nat :=
+  match ty with
+  | .struct ms _ true => if top && !ms.isEmpty then some (ms.length - 1) else none
+  | _ => none
+
+/-- region `FlexReinit`: the initializer whose designated subobjects are `paths` (`desg`: it has a designator list) initialises
+    the flexible array member of the declared object - it designates it, or the cursor stands at the member itself - although
+    an earlier initializer of the list has initialised that member (its value is no longer "no elements") -/
+def reinitAt (ty : Ty) (top : Bool) (obj : Init) (desg : Bool) (paths : List (List Nat)) : Bool :=
+  match flexIdx ty top, paths with
+  | some k, (j :: rest) :: _ =>
+    j == k && (desg || rest.isEmpty) && (match obj.children[k]? with | some .flex => false | _ => true)
+  | _, _ => false
 
 /-- one brace-enclosed initializer list for a current object of type `ty` whose value so far is `obj`;
     `toks` starts after the `{`; `cur` is the cursor (`none`: no subobject left); `top`: the current object is the
@@ -395,8 +415,8 @@ def initList : Nat → Ty → Bool → Init → Option (List Nat) → List ITok 
     | .comma :: .rbrace :: r => .ok ⟨obj, r, fl⟩
     | _ => do
       let toks ← if first then pure toks else skipTok .comma "," toks
-      let (paths, toks) ← pathsOf ty top cur toks
-      initItemWith (initList f) ty top obj paths toks fl
+      let (paths, toks') ← pathsOf ty top cur toks
+      initItemWith (initList f) ty top obj paths toks' (fl.join ⟨false, false, false, reinitAt ty top obj (isDesg toks) paths⟩)
 
 /-- 6.7.9 for a declared object of type `ty` with initializer `toks`: the object value, what follows the initializer, and
     the regions the initializer lies in -/
@@ -443,6 +463,14 @@ def WideRange (ty : Ty) (toks : List ITok) : Bool :=
   | .ok r => r.fl.wide
   | .error _ => false
 
+/-- region: the flexible array member of the declared object is initialised again after an earlier initializer of the list
+    initialised it (by a designator naming it, or by the cursor coming back to it) - GNU extension, gcc grows the array,
+    chibicc keeps the length of the first initializer -/
+def FlexReinit (ty : Ty) (toks : List ITok) : Bool :=
+  match initFull ty toks with
+  | .ok r => r.fl.reinit
+  | .error _ => false
+
 /-! ### the declared types for which parser = specification is proved (Props/C05.lean, `C05_parse_spec_partial`) -/
 
 mutual
@@ -457,9 +485,19 @@ mutual
     | (_, t) :: r => subOk t && subOkMs r
 end
 
-/-- the declared types covered: no flexible array member, an array of unknown bound only outermost, unions have a named member -/
+/-- the members of a struct with a flexible array member: every member but the last is covered, the last one is `elem[]`
+    (`array_of(elem, 0)` after struct_members) with a covered element type -/
+def flexOkMs : Members → Bool
+  | [] => false
+  | [(_, .array e _)] => subOk e
+  | [_] => false
+  | (_, t) :: m :: r => subOk t && flexOkMs (m :: r)
+
+/-- the declared types covered: an array of unknown bound only outermost, a flexible array member only as the last member of the
+    declared struct itself (as in C), unions have a named member -/
 def tyOk : Ty → Bool
   | .inc e => subOk e
+  | .struct ms _ true => flexOkMs ms
   | t => subOk t
 
 end ChibiVerif.InitSpec
